@@ -5,7 +5,7 @@ row/column range with 0 in the open coordinate, *meaning* 1..MAX.  Spec
 functions below are the set-theoretic reading (`ext` = widened extent).
 """
 from pyvc.spec import (Const, Contract, Int, Lemma, NoneT, Record, Ref, Str,
-                       Tuple, Union, implies)
+                       Tuple, Union, forall_range, implies)
 
 MAX_COL = 16384
 MAX_ROW = 1048576
@@ -233,4 +233,282 @@ CONTRACTS = [
              returns=ui_result),
 ]
 
-LEMMAS = []
+
+# -- offsets ----------------------------------------------------------------------
+
+def pre_cell(self, inc):
+    return valid_cell(self)
+
+
+def post_inc_col(self, inc, result):
+    return (1 <= result <= MAX_COL and (result - (self.col_idx + inc)) % MAX_COL == 0 and
+            implies(inc == 0, result == self.col_idx))
+
+
+def post_inc_row(self, inc, result):
+    return (1 <= result <= MAX_ROW and (result - (self.row + inc)) % MAX_ROW == 0 and
+            implies(inc == 0, result == self.row))
+
+
+def pre_offset(self, row_inc, col_inc):
+    return valid_cell(self)
+
+
+def post_offset(self, row_inc, col_inc, result):
+    return (valid_cell(result) and not result.is_range and result.sheet == self.sheet and
+            (result.col_idx - (self.col_idx + col_inc)) % MAX_COL == 0 and
+            (result.row - (self.row + row_inc)) % MAX_ROW == 0)
+
+
+def pre_range_offset(self, row_inc, col_inc):
+    return valid_range(self) and self.start.row != 0 and self.start.col_idx != 0
+
+
+def post_range_offset(self, row_inc, col_inc, result):
+    return (valid_cell(result) and result.sheet == self.sheet and
+            (result.col_idx - (self.start.col_idx + col_inc)) % MAX_COL == 0 and
+            (result.row - (self.start.row + row_inc)) % MAX_ROW == 0)
+
+
+# -- size / containment / enumeration ------------------------------------------------
+
+def pre_range(self):
+    return valid_range(self)
+
+
+def post_size(self, result):
+    x = ext(self)
+    return result.height == x[3] - x[1] + 1 and result.width == x[2] - x[0] + 1
+
+
+def bounded_range(a):
+    return valid_range(a) and a.start.row != 0 and a.start.col_idx != 0
+
+
+def pre_contains(self, address):
+    return bounded_range(self) and valid_cell(address)
+
+
+def post_contains(self, address, result):
+    return result == in_ext(address.col_idx, address.row, ext(self))
+
+
+def pre_cell_contains(self, address):
+    return valid_cell(self) and valid_cell(address)
+
+
+def post_cell_contains(self, address, result):
+    return result == (self.col_idx == address.col_idx and self.row == address.row and
+                      self.sheet == address.sheet and self.address == address.address and
+                      self.coordinate == address.coordinate)
+
+
+def enumerable(self):
+    """bounded and smaller than a whole row/column (resolve_range's own assert)"""
+    x = ext(self)
+    return bounded_range(self) and x[3] - x[1] + 1 < MAX_ROW and x[2] - x[0] + 1 < MAX_COL
+
+
+def cell_at(c, col, row, sheet):
+    return (not c.is_range and c.col_idx == col and c.row == row and c.sheet == sheet)
+
+
+def post_resolve_range(self, result):
+    x = ext(self)
+    h = x[3] - x[1] + 1
+    w = x[2] - x[0] + 1
+    return (len(result) == h and
+            forall_range(0, h, lambda i: len(result[i]) == w and forall_range(
+                0, w, lambda j: cell_at(result[i][j], x[0] + j, x[1] + i, self.sheet) and
+                in_ext(result[i][j].col_idx, result[i][j].row, x))))
+
+
+def post_rows(self, result):
+    x = ext(self)
+    h = x[3] - x[1] + 1
+    w = x[2] - x[0] + 1
+    rows = tuple(tuple(r) for r in result)
+    return (len(rows) == h and
+            forall_range(0, h, lambda i: len(rows[i]) == w and forall_range(
+                0, w, lambda j: cell_at(rows[i][j], x[0] + j, x[1] + i, self.sheet))))
+
+
+def post_cols(self, result):
+    x = ext(self)
+    h = x[3] - x[1] + 1
+    w = x[2] - x[0] + 1
+    cols = tuple(tuple(c) for c in result)
+    return (len(cols) == w and
+            forall_range(0, w, lambda j: len(cols[j]) == h and forall_range(
+                0, h, lambda i: cell_at(cols[j][i], x[0] + j, x[1] + i, self.sheet))))
+
+
+CONTRACTS += [
+    Contract('pycel.excelutil:AddressCell.inc_col', 'C11', params=dict(self=cell_dom(), inc=Int()),
+             requires=[pre_cell], ensures=[post_inc_col], returns=Int()),
+    Contract('pycel.excelutil:AddressCell.inc_row', 'C11', params=dict(self=cell_dom(), inc=Int()),
+             requires=[pre_cell], ensures=[post_inc_row], returns=Int()),
+    Contract('pycel.excelutil:AddressCell.address_at_offset', 'C11',
+             params=dict(self=cell_dom(), row_inc=Int(), col_inc=Int()),
+             requires=[pre_offset], ensures=[post_offset], returns=cell_dom(), modular=[CELL_NEW]),
+    Contract('pycel.excelutil:AddressRange.address_at_offset', 'C11',
+             params=dict(self=range_dom(), row_inc=Int(), col_inc=Int()),
+             requires=[pre_range_offset], ensures=[post_range_offset], returns=cell_dom(),
+             modular=[CELL_NEW]),
+    Contract('pycel.excelutil:AddressRange.size', 'C11', params=dict(self=range_dom()),
+             requires=[pre_range], ensures=[post_size]),
+    Contract('pycel.excelutil:AddressRange.__contains__', 'C11',
+             params=dict(self=range_dom(), address=cell_dom()),
+             requires=[pre_contains], ensures=[post_contains]),
+    Contract('pycel.excelutil:AddressCell.__contains__', 'C11',
+             params=dict(self=cell_dom(), address=cell_dom()),
+             requires=[pre_cell_contains], ensures=[post_cell_contains]),
+    Contract('pycel.excelutil:AddressRange.resolve_range', 'C11', params=dict(self=range_dom()),
+             requires=[enumerable], ensures=[post_resolve_range], modular=[CELL_NEW]),
+    Contract('pycel.excelutil:AddressRange.rows', 'C11', params=dict(self=range_dom()),
+             requires=[enumerable], ensures=[post_rows], modular=[CELL_NEW]),
+    Contract('pycel.excelutil:AddressRange.cols', 'C11', params=dict(self=range_dom()),
+             requires=[enumerable], ensures=[post_cols], modular=[CELL_NEW]),
+]
+
+
+# -- property lemmas (over the contracts only; callee bodies are not used) ------------
+
+def same(x, y):
+    """Two results of & / ** denote the same thing."""
+    if isinstance(x, str) or isinstance(y, str):
+        return isinstance(x, str) and isinstance(y, str) and x == y
+    return ext(x) == ext(y) and x.sheet == y.sheet and x.is_range == y.is_range
+
+
+def both_valid(a, b):
+    return valid_addr(a) and valid_addr(b)
+
+
+def three_valid(a, b, c):
+    return valid_addr(a) and valid_addr(b) and valid_addr(c)
+
+
+def lem_inter_comm(a, b):
+    return same(a & b, b & a)
+
+
+def lem_union_comm(a, b):
+    return same(a ** b, b ** a)
+
+
+def one_valid(a):
+    return valid_addr(a)
+
+
+def lem_inter_idem(a):
+    return same(a & a, a)
+
+
+def lem_union_idem(a):
+    return same(a ** a, a)
+
+
+def lem_inter_assoc(a, b, c):
+    ab = a & b
+    bc = b & c
+    # an error value cannot be chained further (it is not an address); the
+    # law is stated for the cases pycel can evaluate, and emptiness must agree
+    if isinstance(ab, str):
+        return isinstance(bc, str) or isinstance(a & bc, str)
+    if isinstance(bc, str):
+        return isinstance(ab & c, str)
+    return same(ab & c, a & bc)
+
+
+def lem_union_assoc(a, b, c):
+    ab = a ** b
+    bc = b ** c
+    if isinstance(ab, str):
+        return isinstance(bc, str) or isinstance(a ** bc, str)
+    if isinstance(bc, str):
+        return isinstance(ab ** c, str)
+    return same(ab ** c, a ** bc)
+
+
+def ext_within(x, y):
+    """extent x lies inside extent y"""
+    return y[0] <= x[0] and x[2] <= y[2] and y[1] <= x[1] and x[3] <= y[3]
+
+
+def lem_inter_is_glb(a, b, c0, r0, c1, r1):
+    """a & b is inside both operands, and any rectangle inside both is inside it."""
+    m = a & b
+    x = (c0, r0, c1, r1)
+    inside_both = ext_within(x, ext(a)) and ext_within(x, ext(b))
+    if isinstance(m, str):
+        return m == VALUE_ERROR or not inside_both
+    return (ext_within(ext(m), ext(a)) and ext_within(ext(m), ext(b)) and
+            implies(inside_both, ext_within(x, ext(m))))
+
+
+def lem_union_is_hull(a, b, c0, r0, c1, r1):
+    """both operands are inside a ** b, which is inside any rectangle holding both."""
+    u = a ** b
+    x = (c0, r0, c1, r1)
+    if isinstance(u, str):
+        return u == VALUE_ERROR and a.sheet != b.sheet
+    return (ext_within(ext(a), ext(u)) and ext_within(ext(b), ext(u)) and
+            implies(ext_within(ext(a), x) and ext_within(ext(b), x), ext_within(ext(u), x)))
+
+
+def rect_ok(a, b, c0, r0, c1, r1):
+    return both_valid(a, b) and 1 <= c0 <= c1 <= MAX_COL and 1 <= r0 <= r1 <= MAX_ROW
+
+
+def offsets_pre(a, r1, c1, r2, c2):
+    return valid_cell(a)
+
+
+def lem_offset_compose(a, r1, c1, r2, c2):
+    x = a.address_at_offset(r1, c1).address_at_offset(r2, c2)
+    y = a.address_at_offset(r1 + r2, c1 + c2)
+    return x.col_idx == y.col_idx and x.row == y.row and x.sheet == y.sheet
+
+
+def lem_offset_zero(a, r1, c1, r2, c2):
+    z = a.address_at_offset(0, 0)
+    return z.col_idx == a.col_idx and z.row == a.row and z.sheet == a.sheet
+
+
+def lem_offset_wraps(a, r1, c1, r2, c2):
+    """a full turn around the sheet comes back to the same cell"""
+    z = a.address_at_offset(MAX_ROW, MAX_COL)
+    w = a.address_at_offset(-MAX_ROW, -MAX_COL)
+    return (z.col_idx == a.col_idx and z.row == a.row and
+            w.col_idx == a.col_idx and w.row == a.row)
+
+
+OFFSET = 'pycel.excelutil:AddressCell.address_at_offset'
+
+LEMMAS = [
+    Lemma('inter_commutative', 'C11', dict(a=addr_dom(), b=addr_dom()), lem_inter_comm,
+          requires=[both_valid], modular=[UI]),
+    Lemma('union_commutative', 'C11', dict(a=addr_dom(), b=addr_dom()), lem_union_comm,
+          requires=[both_valid], modular=[UI]),
+    Lemma('inter_idempotent', 'C11', dict(a=addr_dom()), lem_inter_idem,
+          requires=[one_valid], modular=[UI]),
+    Lemma('union_idempotent', 'C11', dict(a=addr_dom()), lem_union_idem,
+          requires=[one_valid], modular=[UI]),
+    Lemma('inter_associative', 'C11', dict(a=addr_dom(), b=addr_dom(), c=addr_dom()), lem_inter_assoc,
+          requires=[three_valid], modular=[UI]),
+    Lemma('union_associative', 'C11', dict(a=addr_dom(), b=addr_dom(), c=addr_dom()), lem_union_assoc,
+          requires=[three_valid], modular=[UI]),
+    Lemma('inter_is_greatest_common_rectangle', 'C11',
+          dict(a=addr_dom(), b=addr_dom(), c0=Int(), r0=Int(), c1=Int(), r1=Int()), lem_inter_is_glb,
+          requires=[rect_ok], modular=[UI]),
+    Lemma('union_is_minimal_bounding_rectangle', 'C11',
+          dict(a=addr_dom(), b=addr_dom(), c0=Int(), r0=Int(), c1=Int(), r1=Int()), lem_union_is_hull,
+          requires=[rect_ok], modular=[UI]),
+    Lemma('offsets_compose', 'C11', dict(a=cell_dom(), r1=Int(), c1=Int(), r2=Int(), c2=Int()),
+          lem_offset_compose, requires=[offsets_pre], modular=[OFFSET]),
+    Lemma('offset_zero_is_identity', 'C11', dict(a=cell_dom(), r1=Int(), c1=Int(), r2=Int(), c2=Int()),
+          lem_offset_zero, requires=[offsets_pre], modular=[OFFSET]),
+    Lemma('offset_full_turn', 'C11', dict(a=cell_dom(), r1=Int(), c1=Int(), r2=Int(), c2=Int()),
+          lem_offset_wraps, requires=[offsets_pre], modular=[OFFSET]),
+]
